@@ -132,6 +132,9 @@ pub fn run_case(ctx: &Ctx, idx: u64) -> Vec<CaseOut> {
     if d.drain.out != data {
         return vec![CaseOut::viol(cell, format!("trailing-bytes-change-data {cname} [{tname}]"), first_diff(&d.drain.out, &data), desc)];
     }
+    if let Some(e) = d.after_eos {
+        return vec![CaseOut::viol(cell, format!("read-after-end-of-stream {cname} [{tname}]"), e, desc)];
+    }
     let Some(src) = d.inner else {
         return vec![CaseOut::skip(cell, "reader gives no access to its source", desc)];
     };
